@@ -1,5 +1,6 @@
 import VermouthProofs.C13_Disp
 import VermouthProofs.C13_Comp
+import VermouthProofs.C13_ReaderProofs
 /-!
 # C13 — force-field, topology and mapping files load to exactly what they declare
 
@@ -36,19 +37,21 @@ theorem link_content_is_section_content (P : Params C G) (g0 : G) (lines : List 
 
 /-- **Blocks**: the library holds, per name, the LAST block declared with that name, keys in order of
 first declaration (`blocks[name] = block`), each block holding the lines routed to it until the next
-`[ moleculetype ]`; one `blockSpec` entry per `[ moleculetype ]` header, in file order. -/
+`[ moleculetype ]`; one `blockSpec` entry per `[ moleculetype ]` header, in file order.
+Hypothesis `NameStableR`: a handler called for a line routed to the block does not rename it outside
+`[ moleculetype ]` itself (proved for the concrete reader: `Tables.reader_name_stable`). -/
 theorem blocks_declared_last_wins (P : Params C G) (g0 : G) (lines : List Line) (s : St C G)
-    (hT : TopOk P.T) (hS : NameStable P .block "moleculetype") (h : ffRun P g0 lines = some s) :
+    (hT : TopOk P.T) (hS : NameStableR P .block "moleculetype") (h : ffRun P g0 lines = some s) :
     s.blocks = dictOfList ((blockSpec P [] none 0 lines).map (fun b => (P.nameOf b.2, b))) ∧
     (blockSpec P [] none 0 lines).map (·.1) = hdrIdxs "moleculetype" 0 lines :=
-  ⟨ff_blocks_spec P g0 lines s hT hS h, blockSpec_hdrs P [] 0 lines⟩
+  ⟨ff_blocks_spec_R P g0 lines s hT hS h, blockSpec_hdrs P [] 0 lines⟩
 
 /-- **Modifications**: same statement for `[ modification ]`. -/
 theorem modifications_declared_last_wins (P : Params C G) (g0 : G) (lines : List Line) (s : St C G)
-    (hT : TopOk P.T) (hS : NameStable P .modification "modification") (h : ffRun P g0 lines = some s) :
+    (hT : TopOk P.T) (hS : NameStableR P .modification "modification") (h : ffRun P g0 lines = some s) :
     s.mods = dictOfList ((modSpec P [] none 0 lines).map (fun b => (P.nameOf b.2, b))) ∧
     (modSpec P [] none 0 lines).map (·.1) = hdrIdxs "modification" 0 lines :=
-  ⟨ff_mods_spec P g0 lines s hT hS h, modSpec_hdrs P [] 0 lines⟩
+  ⟨ff_mods_spec_R P g0 lines s hT hS h, modSpec_hdrs P [] 0 lines⟩
 
 /-- a content line under a section path that is not in the dispatch table is rejected -/
 theorem unknown_section_rejected (P : Params C G) (s : St C G) (t : String)
